@@ -1,0 +1,120 @@
+//go:build verif
+
+package couchbase
+
+// Contracts checked by /verif (govc). Comment-only: no executable code.
+// Stream request (C02), server-requested rollback (C08), request/callback protocol (C20).
+
+//@ func (*client).OpenStream$1
+//@ props C06 C08 C20
+//@ nonblocking
+//@ requires opm != nil && typeis(opm, "*asyncOp") && as(opm, "*asyncOp").signal != nil && chsent(as(opm, "*asyncOp").signal) - chrecvd(as(opm, "*asyncOp").signal) < chcap(as(opm, "*asyncOp").signal) && !chclosed(as(opm, "*asyncOp").signal)
+//@ requires ch != nil && ch != as(opm, "*asyncOp").signal && chsent(ch) - chrecvd(ch) < chcap(ch) && !chclosed(ch)
+//@ requires observer != nil && (err == nil ==> len(failOverLogs) > 0)
+//@ ensures.branch[C06,C08] err == nil ==> calls(couchbase.Observer.SetVbUUID) == 1 && arg(couchbase.Observer.SetVbUUID, 0, recv) == observer && arg(couchbase.Observer.SetVbUUID, 0, vbUUID) == failOverLogs[0].VbUUID
+//@ ensures.nobranch[C08] err != nil ==> calls(couchbase.Observer.SetVbUUID) == 0
+//@ ensures.resolve[C20] calls(couchbase.AsyncOp.Resolve) == 1 && arg(couchbase.AsyncOp.Resolve, 0, recv) == opm
+//@ ensures.once_ch[C20] sends(ch) == 1
+//@ ensures.outcome[C20] chbuf(ch, old(chsent(ch))) == err
+//@ modifies chan(ch), chan(as(opm, "*asyncOp").signal), calls(couchbase.AsyncOp.Resolve), calls(couchbase.Observer.SetVbUUID)
+
+//@ func (*client).openStreamWithRollback$1
+//@ props C06 C08 C20
+//@ nonblocking
+//@ requires opm != nil && typeis(opm, "*asyncOp") && as(opm, "*asyncOp").signal != nil && chsent(as(opm, "*asyncOp").signal) - chrecvd(as(opm, "*asyncOp").signal) < chcap(as(opm, "*asyncOp").signal) && !chclosed(as(opm, "*asyncOp").signal)
+//@ requires ch != nil && ch != as(opm, "*asyncOp").signal && chsent(ch) - chrecvd(ch) < chcap(ch) && !chclosed(ch)
+//@ requires observer != nil && (err == nil ==> len(failOverLogs) > 0)
+//@ ensures.branch[C06,C08] err == nil ==> calls(couchbase.Observer.SetVbUUID) == 1 && arg(couchbase.Observer.SetVbUUID, 0, recv) == observer && arg(couchbase.Observer.SetVbUUID, 0, vbUUID) == failOverLogs[0].VbUUID
+//@ ensures.catchup[C08] err == nil ==> calls(couchbase.Observer.SetCatchup) == 1 && arg(couchbase.Observer.SetCatchup, 0, recv) == observer && arg(couchbase.Observer.SetCatchup, 0, seqNo) == failedSeqNo
+//@ ensures.nobranch[C08] err != nil ==> calls(couchbase.Observer.SetVbUUID) == 0 && calls(couchbase.Observer.SetCatchup) == 0
+//@ ensures.resolve[C20] calls(couchbase.AsyncOp.Resolve) == 1 && arg(couchbase.AsyncOp.Resolve, 0, recv) == opm
+//@ ensures.once_ch[C20] sends(ch) == 1
+//@ ensures.outcome[C20] chbuf(ch, old(chsent(ch))) == err
+//@ modifies chan(ch), chan(as(opm, "*asyncOp").signal), calls(couchbase.AsyncOp.Resolve), calls(couchbase.Observer.SetVbUUID), calls(couchbase.Observer.SetCatchup)
+
+//@ func (*client).openStreamWithRollback
+//@ props C08 C20
+//@ requires s != nil && s.dcpAgent != nil
+//@ let K = 0
+//@ let flog = dret("couchbase.(*client).GetFailOverLogs", 0, 0)
+//@ let ferr = dret("couchbase.(*client).GetFailOverLogs", 0, 1)
+//@ let n = len(flog)
+//@ let cb = darg("gocbcore.(*DCPAgent).OpenStream", 0, cb)
+//@ loop 1
+//@   invariant.range -1 <= i && i <= len(failOverLogs) - 1
+//@   invariant.none (forall j int :: i < j && j < len(failOverLogs) ==> rollbackSeqNo < failOverLogs[j].SeqNo) ==> targetUUID == 0
+//@   invariant.newest forall j int :: i < j && j < len(failOverLogs) && rollbackSeqNo >= failOverLogs[j].SeqNo && (forall k int :: i < k && k < j ==> rollbackSeqNo < failOverLogs[k].SeqNo) ==> targetUUID == failOverLogs[j].VbUUID
+//@ ensures.logerr[C08] ferr != nil ==> result == ferr && dcalls("gocbcore.(*DCPAgent).OpenStream") == 0
+//@ ensures.request[C08] ferr == nil ==> dcalls("gocbcore.(*DCPAgent).OpenStream") == 1 && darg("gocbcore.(*DCPAgent).OpenStream", 0, vbID) == vbID && darg("gocbcore.(*DCPAgent).OpenStream", 0, flags) == 0 && darg("gocbcore.(*DCPAgent).OpenStream", 0, startSeqNo) == rollbackSeqNo && darg("gocbcore.(*DCPAgent).OpenStream", 0, endSeqNo) == latestSeqNo && darg("gocbcore.(*DCPAgent).OpenStream", 0, snapStartSeqNo) == rollbackSeqNo && darg("gocbcore.(*DCPAgent).OpenStream", 0, snapEndSeqNo) == rollbackSeqNo && darg("gocbcore.(*DCPAgent).OpenStream", 0, evtHandler) == observer
+//@ ensures.branch_none[C08] ferr == nil && (forall j int :: 0 <= j && j < n ==> rollbackSeqNo < flog[j].SeqNo) ==> darg("gocbcore.(*DCPAgent).OpenStream", 0, vbUUID) == 0
+//@ ensures.branch_newest[C08] ferr == nil ==> forall j int :: 0 <= j && j < n && rollbackSeqNo >= flog[j].SeqNo && (forall k int :: 0 <= k && k < j ==> rollbackSeqNo < flog[k].SeqNo) ==> darg("gocbcore.(*DCPAgent).OpenStream", 0, vbUUID) == flog[j].VbUUID
+//@ check.callback[C08,C20] ferr == nil ==> isclosure(cb, "couchbase.(*client).openStreamWithRollback$1") && captured(cb, "couchbase.(*client).openStreamWithRollback$1", "ch") == ch && captured(cb, "couchbase.(*client).openStreamWithRollback$1", "opm") == opm && captured(cb, "couchbase.(*client).openStreamWithRollback$1", "observer") == observer && captured(cb, "couchbase.(*client).openStreamWithRollback$1", "failedSeqNo") == failedSeqNo
+//@ check.buffered[C20] ferr == nil ==> chcap(ch) >= 1
+//@ ensures.timeout[C20] ferr == nil && dret(couchbase.AsyncOp.Wait, 0) != nil ==> result == dret(couchbase.AsyncOp.Wait, 0)
+//@ check.outcome[C20] ferr == nil && dret(couchbase.AsyncOp.Wait, 0) == nil ==> result == chbuf(ch, 0)
+//@ modifies calls("gocbcore.(*DCPAgent).OpenStream"), calls("couchbase.(*client).GetFailOverLogs"), calls("gocbcore.(*DCPAgent).GetFailoverLog"), calls(couchbase.AsyncOp.Wait), calls(gocbcore.PendingOp.Cancel), calls(select.case)
+
+//@ func (*client).OpenStream
+//@ props C02 C08 C20
+//@ requires s != nil && s.dcpAgent != nil && offset != nil && offset.SnapshotMarker != nil
+//@ let cb = darg("gocbcore.(*DCPAgent).OpenStream", 0, cb)
+//@ let got = chbuf(ch, 0)
+//@ let waiterr = dret(couchbase.AsyncOp.Wait, 0)
+//@ let rolled = waiterr == nil && typeis(got, gocbcore.DCPRollbackError)
+//@ loop 1
+//@   invariant.opts options != nil
+//@   modifies fields(options)
+//@ ensures.request[C02] dcalls("gocbcore.(*DCPAgent).OpenStream") == 1 && darg("gocbcore.(*DCPAgent).OpenStream", 0, vbID) == vbID && darg("gocbcore.(*DCPAgent).OpenStream", 0, vbUUID) == offset.VbUUID && darg("gocbcore.(*DCPAgent).OpenStream", 0, startSeqNo) == offset.SeqNo && darg("gocbcore.(*DCPAgent).OpenStream", 0, endSeqNo) == offset.LatestSeqNo && darg("gocbcore.(*DCPAgent).OpenStream", 0, snapStartSeqNo) == offset.StartSeqNo && darg("gocbcore.(*DCPAgent).OpenStream", 0, snapEndSeqNo) == offset.EndSeqNo && darg("gocbcore.(*DCPAgent).OpenStream", 0, evtHandler) == observer
+//@ check.callback[C06,C20] isclosure(cb, "couchbase.(*client).OpenStream$1") && captured(cb, "couchbase.(*client).OpenStream$1", "ch") == ch && captured(cb, "couchbase.(*client).OpenStream$1", "opm") == opm && captured(cb, "couchbase.(*client).OpenStream$1", "observer") == observer
+//@ check.buffered[C20] chcap(ch) >= 1
+//@ ensures.timeout[C20] waiterr != nil ==> result == waiterr && dcalls("couchbase.(*client).openStreamWithRollback") == 0
+//@ check.outcome[C20] waiterr == nil && !typeis(got, gocbcore.DCPRollbackError) ==> result == got && dcalls("couchbase.(*client).openStreamWithRollback") == 0
+//@ check.rollback[C08] rolled ==> dcalls("couchbase.(*client).openStreamWithRollback") == 1 && result == dret("couchbase.(*client).openStreamWithRollback", 0, 0) && darg("couchbase.(*client).openStreamWithRollback", 0, s) == s && darg("couchbase.(*client).openStreamWithRollback", 0, vbID) == vbID && darg("couchbase.(*client).openStreamWithRollback", 0, failedSeqNo) == offset.SeqNo && darg("couchbase.(*client).openStreamWithRollback", 0, rollbackSeqNo) == as(got, gocbcore.DCPRollbackError).SeqNo && darg("couchbase.(*client).openStreamWithRollback", 0, latestSeqNo) == offset.LatestSeqNo && darg("couchbase.(*client).openStreamWithRollback", 0, observer) == observer
+//@ modifies calls("gocbcore.(*DCPAgent).OpenStream"), calls("couchbase.(*client).openStreamWithRollback"), calls("couchbase.(*client).GetFailOverLogs"), calls("gocbcore.(*DCPAgent).GetFailoverLog"), calls("gocbcore.(*DCPAgent).HasCollectionsSupport"), calls(couchbase.AsyncOp.Wait), calls(gocbcore.PendingOp.Cancel), calls(select.case)
+
+//@ func (*client).Ping$1
+//@ props C20
+//@ nonblocking
+//@ requires opm != nil && typeis(opm, "*asyncOp") && as(opm, "*asyncOp").signal != nil && chsent(as(opm, "*asyncOp").signal) - chrecvd(as(opm, "*asyncOp").signal) < chcap(as(opm, "*asyncOp").signal) && !chclosed(as(opm, "*asyncOp").signal)
+//@ requires errorCh != nil && errorCh != as(opm, "*asyncOp").signal && chsent(errorCh) - chrecvd(errorCh) < chcap(errorCh) && !chclosed(errorCh)
+//@ requires err == nil ==> result != nil
+//@ ensures.resolve[C20] calls(couchbase.AsyncOp.Resolve) == 1 && arg(couchbase.AsyncOp.Resolve, 0, recv) == opm
+//@ ensures.once_ch[C20] sends(errorCh) == 1
+//@ ensures.outcome[C20] err != nil ==> chbuf(errorCh, old(chsent(errorCh))) == err
+//@ ensures.healthy[C19,C20] chbuf(errorCh, old(chsent(errorCh))) == nil ==> err == nil && pingResult.MemdEndpoint != "" && pingResult.MgmtEndpoint != ""
+//@ modifies chan(errorCh), chan(as(opm, "*asyncOp").signal), calls(couchbase.AsyncOp.Resolve), fields(fvcell("pingResult"))
+
+//@ func (*client).Ping
+//@ props C19 C20
+//@ requires s != nil && s.agent != nil && s.config != nil
+//@ let cb = arg("gocbcore.(*Agent).Ping", 0, cb)
+//@ check.issued[C20] calls("gocbcore.(*Agent).Ping") == 1 && isclosure(cb, "couchbase.(*client).Ping$1") && captured(cb, "couchbase.(*client).Ping$1", "errorCh") == errorCh && captured(cb, "couchbase.(*client).Ping$1", "opm") == opm
+//@ check.buffered[C20] chcap(errorCh) >= 1
+//@ ensures.timeout[C20] ret(couchbase.AsyncOp.Wait, 0) != nil ==> result1 == ret(couchbase.AsyncOp.Wait, 0) && result0 == nil
+//@ check.outcome[C20] ret(couchbase.AsyncOp.Wait, 0) == nil ==> result1 == chbuf(errorCh, 0)
+//@ modifies calls("gocbcore.(*Agent).Ping"), calls(couchbase.AsyncOp.Wait), calls(gocbcore.PendingOp.Cancel), calls(select.case)
+
+//@ func (*client).GetVBucketSeqNos$1$1$1
+//@ props C20
+//@ nonblocking
+//@ requires opm != nil && typeis(opm, "*asyncOp") && as(opm, "*asyncOp").signal != nil && chsent(as(opm, "*asyncOp").signal) - chrecvd(as(opm, "*asyncOp").signal) < chcap(as(opm, "*asyncOp").signal) && !chclosed(as(opm, "*asyncOp").signal)
+//@ requires ch != nil && ch != as(opm, "*asyncOp").signal && chsent(ch) - chrecvd(ch) < chcap(ch) && !chclosed(ch)
+//@ requires seqNos != nil
+//@ loop 1
+//@   modifies content(seqNos)
+//@ ensures.resolve[C20] calls(couchbase.AsyncOp.Resolve) == 1 && arg(couchbase.AsyncOp.Resolve, 0, recv) == opm
+//@ ensures.once_ch[C20] sends(ch) == 1
+//@ ensures.outcome[C20] chbuf(ch, old(chsent(ch))) == err
+//@ modifies chan(ch), chan(as(opm, "*asyncOp").signal), calls(couchbase.AsyncOp.Resolve), content(seqNos)
+
+//@ func (*client).GetVBucketSeqNos$1$1
+//@ props C20
+//@ requires s != nil && s.dcpAgent != nil && seqNos != nil
+//@ let cb = arg("gocbcore.(*DCPAgent).GetVbucketSeqnos", 0, cb)
+//@ let reqerr = ret("gocbcore.(*DCPAgent).GetVbucketSeqnos", 0, 1)
+//@ check.issued[C20] calls("gocbcore.(*DCPAgent).GetVbucketSeqnos") == 1 && isclosure(cb, "couchbase.(*client).GetVBucketSeqNos$1$1$1") && captured(cb, "couchbase.(*client).GetVBucketSeqNos$1$1$1", "ch") == ch && captured(cb, "couchbase.(*client).GetVBucketSeqNos$1$1$1", "opm") == opm
+//@ check.buffered[C20] chcap(ch) >= 1
+//@ ensures.reqerr[C20] reqerr != nil ==> result == reqerr
+//@ ensures.timeout[C20] reqerr == nil && ret(couchbase.AsyncOp.Wait, 0) != nil ==> result == ret(couchbase.AsyncOp.Wait, 0)
+//@ check.outcome[C20] reqerr == nil && ret(couchbase.AsyncOp.Wait, 0) == nil ==> result == chbuf(ch, 0)
+//@ modifies calls("gocbcore.(*DCPAgent).GetVbucketSeqnos"), calls(couchbase.AsyncOp.Wait), calls(gocbcore.PendingOp.Cancel), calls(select.case)
